@@ -26,6 +26,7 @@ import (
 	"github.com/dappledger/AnnChain/gemmill/modules/go-clist"
 	gcmn "github.com/dappledger/AnnChain/gemmill/modules/go-common"
 	"github.com/dappledger/AnnChain/gemmill/types"
+	"github.com/dappledger/AnnChain/gemmill/verifhook"
 )
 
 const cacheSize = 100000
@@ -128,6 +129,7 @@ func (mem *Mempool) ReceiveTx(tx types.Tx) (err error) {
 	if !mem.cache.Push(tx) {
 		return ErrTxInCache
 	}
+	verifhook.Gate("mempool.ReceiveTx.afterCachePush")
 
 	nc := atomic.AddInt64(&mem.counter, 1)
 	memTx := &types.TxInPool{
@@ -168,6 +170,7 @@ func (mem *Mempool) Update(height int64, txs []types.Tx) {
 		mem.cache.Push(tx)
 	}
 
+	verifhook.Gate("mempool.Update.beforeRefresh")
 	mem.Lock()
 	// Remove transactions that are already in txs, also re-run txs through filters
 	mem.refreshMempoolTxs(txsMap)
